@@ -113,6 +113,9 @@ func snapshotProfile() Profile {
 	p.MinVoters = 2
 	p.PDup, p.PLate = 0.06, 0.04
 	p.WSnapFault = 0.4
+	p.SnapChaos = 0.35
+	p.WStallThread = 3
+	p.WSlowNode = 2
 	return p
 }
 
@@ -234,7 +237,11 @@ func SpecFor(id string) PropSpec {
 	case "C15":
 		p := DefaultProfile()
 		p.PUniform = 1
-		return one(p, "C15-uniform")
+		q := snapshotProfile()
+		q.PUniform, q.PSmallLimits, q.PAsync = 1, 0.9, 0.8
+		s.Profiles = []Profile{withName(p, "C15-uniform"), withName(q, "C15-snapshot"), withName(d, "C15-default")}
+		s.Shares = []float64{0.5, 0.3, 0.2}
+		return s
 	case "C16":
 		return one(flowProfile(), "C16-flow")
 	case "C17":
